@@ -51,8 +51,9 @@ def main():
     chk.run_contracts("contracts.c03", names=[f"BaseBackend.{m}[{v}]" for m in ("_solve_euler", "_solve_heun") for v in ("ode", "dde")],
                       fallback={"*": solver_fallback(chk)})
     chk.run_contracts("contracts.c02", fallback={"*": lambda: []})
-    driver.run_family(
-        chk, "run-with-inputs-vs-spec", families(chk.tier, chk.seed), case_fn, site="C08/inputs",
+    _cases = families(chk.tier, chk.seed)
+    _results = driver.run_family(
+        chk, "run-with-inputs-vs-spec", _cases, case_fn, site="C08/inputs",
         rule="leaky integrators driven by seeded random (non-constant) input arrays: (N,), (N,1), 1-D broadcast to three nodes via "
              "`all`, (N,3) one column per node (vectorised only), one node of three plus a converging edge, two inputs to two "
              "variables, two inputs to the same variable, hierarchy with single and wildcard targets, a coarse 9-sample input under "
@@ -61,6 +62,8 @@ def main():
              "Fortran backends with a seeded input (their own euler/heun loops with dts = 3 and 5 steps, scipy with interpolation) and "
              "their loops called directly; distinct = (scenario, solver, vectorize)",
         sample_of=lambda c: {k: v for k, v in c.items() if k not in ("features", "inputs")})
+    driver.run_sequences(chk, "run-with-inputs-vs-spec-in-sequence", _cases, _results, case_fn, site="C08/inputs",
+                         limit=20 if chk.tier == "quick" else 120, seed=chk.seed)
     rc = chk.finish(
         explanation="Deductive core: the fixed-step loops of the NumPy, Torch and JAX backends call the vector field with the integer step "
                     "counter i + t0 at step i (both Heun stages the same one), for every step count and cadence — the generated "
